@@ -45,6 +45,19 @@ def rtPayloads (cfg : Cfg) (mtu : UInt16) (frames : List (List (Nat × Bytes))) 
 def rtObs (cfg : Cfg) (mtu : UInt16) (frames : List (List (Nat × Bytes))) : List (Option (List C14.PktObs)) :=
   (rtPayloads cfg mtu frames).map fun ps => some (ps.map (pktObs cfg.addDONL))
 
+/-- hypotheses of `c14_roundtrip`: MTU ≥ 4 (with AddDONL: ≥ 6, the smallest MTU at which an FU can
+    carry a payload octet — below that nothing RFC 7798 defines can carry a unit of MTU−1 octets),
+    well-formed units, Annex-B framing that can carry them -/
+def rtWF (cfg : Cfg) (mtu : UInt16) (frames : List (List (Nat × Bytes))) : Bool :=
+  decide ((if cfg.addDONL then 6 else 4) ≤ mtu.toNat) && frames.all C14.frameWF
+
+/-- a fragmentation unit, by the payload header type -/
+def isFU (p : Bytes) : Bool := match p with | a :: b :: _ => hdrIsFU (rd16 a b) | _ => false
+
+/-- region of the known finding `c14_donl_fu`: AddDONL and some unit is fragmented -/
+def rtKF (cfg : Cfg) (mtu : UInt16) (frames : List (List (Nat × Bytes))) : Bool :=
+  cfg.addDONL && (rtPayloads cfg mtu frames).any (·.any isFU)
+
 /-! ### c08.h265 / c09.h265 -/
 
 def c08Obs (cfg : Cfg) (calls : List (UInt16 × Option Bytes)) : List PayObs :=
